@@ -649,6 +649,19 @@ func (propC17) Generate(r *Rand, tier string) []Case {
 			}
 		}
 	}
+	// (2a') a letter directly against an opening quote, with and without a word in front of it: the letters that
+	// prefix a string literal in one SQL dialect or another (E'..' N'..' X'..' B'..' R'..' U&'..'). The rewriters know
+	// no literal prefixes: the letter is ordinary text, whether it stands alone or ends a keyword / name (LIKE'a%').
+	for _, w := range []string{"", "LIK", "els", "x_"} {
+		for _, l := range []byte("eEnNxXbBrRuU") {
+			for _, k := range []string{"sq", "dq", "bt"} {
+				doc := []c17Seg{{K: "raw", S: w + string(l)}, {K: k, S: "a"}, {K: "raw", S: " "}, {K: "open"}, {K: "sq", S: "z"}, {K: "close"}}
+				for _, q := range []string{"pg", "my"} {
+					add(c17In{Kind: "doc", Q: q, Doc: doc}, "stream:probe-letter-against-quote")
+				}
+			}
+		}
+	}
 	// (2b) longer bodies over the quote/escape bytes only
 	for _, body := range c17AllStrings([]byte{'"', '\'', '`', '\\', '['}, 3) {
 		if len(body) < 3 {
